@@ -1,4 +1,5 @@
-import CssVerif.Model.Decl
+import CssVerif.Model.DeclText
+import CssVerif.Model.DeclAttr
 /-!
 Driver for C10 (stateful). The tokenizer and the value grammar are parameters of the model (`Decl.Env`); the
 harness fills their tables (`tok`, `val`, `idn` lines) from the real `Tokenizer` / `PropertyValue`. Every operation
@@ -14,6 +15,12 @@ structure St where
   raising : Bool := true
   d : Decl := { seq := [] }
   v : Vars := { vars := [], seq := [] }
+  /-- serializer preferences in force for the `ptext` / `psep` / `vptext` requests -/
+  prefs : SPrefs := {}
+  /-- `PropertyValue.cssText` under `prefs`, keyed by the cssText under the default preferences -/
+  vts : List (Cps × Cps) := []
+  /-- `property.valid`, keyed by name, value text and priority -/
+  valids : List ((Cps × Cps × Cps) × Bool) := []
 
 def lookup {β : Type} (l : List (Cps × β)) (k : Cps) : Option β :=
   match l.find? (fun e => e.1 == k) with
@@ -34,6 +41,21 @@ def St.env (s : St) (alt : Bool) : Env :=
     isIdent := fun t => match lookup s.idns t with
       | some r => r
       | none => alt }
+
+/-- render environment for the preferences in force; `alt` selects what a missing table entry answers -/
+def St.renv (s : St) (alt : Bool) : REnv :=
+  { vtext := fun v => match lookup s.vts v.css with
+      | some r => r
+      | none => if alt then sentinel else []
+    valid := fun p => match s.valids.find? (fun e => e.1 == (p.name, p.val.css, p.prio)) with
+      | some e => e.2
+      | none => alt }
+
+/-- a text computed under both render environments -/
+def rtext (st : St) (f : REnv → Cps) : String :=
+  let a := f (st.renv false)
+  let b := f (st.renv true)
+  if a == b then encCps a else "missing"
 
 def decTok (w : String) : Option Tok :=
   match w.splitOn ":" with
@@ -94,7 +116,7 @@ def showObs (d : Decl) : String :=
     "len=" ++ toString (length s),
     "keys=" ++ showList ((keys s).map encCps),
     "items=" ++ showList ((range (-(n + 1)) (n + 1)).map (fun i => encCps (item s i))),
-    "text=" ++ encCps (cssText s),
+    "text=" ++ encCps (cssTextP SPrefs.default REnv.default s),
     "ro=" ++ (if d.readonly then "1" else "0")]
 
 def showVObs (v : Vars) : String :=
@@ -107,7 +129,33 @@ def showVObs (v : Vars) : String :=
       | .var nm val => "var/" ++ encCps nm ++ "/" ++ encCps val.css
       | .other t => "other/" ++ encCps t)),
     "reported=" ++ showList ((vReported v).map (fun e => encCps e.1 ++ "/" ++ encCps e.2)),
-    "serialized=" ++ showList ((vSerialized v).map (fun e => encCps e.1 ++ "/" ++ encCps e.2))]
+    "reportedq=" ++ showList ((vReportedQ v).map (fun e => encCps e.1 ++ "/" ++ encCps e.2)),
+    "serialized=" ++ showList ((vSerialized v).map (fun e => encCps e.1 ++ "/" ++ encCps e.2)),
+    "text=" ++ encCps (vCssTextP SPrefs.default REnv.default 1 v)]
+
+def showBool (b : Bool) : String := if b then "1" else "0"
+
+def showPrefs (p : SPrefs) : String :=
+  " ".intercalate [showBool p.keepAllProperties, showBool p.keepComments, showBool p.omitLastSemicolon,
+    showBool p.defaultPropertyName, showBool p.defaultPropertyPriority, showBool p.validOnly,
+    showBool p.normalizedVarNames, showBool p.indentClosingBrace, encCps p.lineSeparator,
+    encCps p.propertyNameSpacer, encCps p.spacer, encCps p.listItemSpacer, encCps p.paranthesisSpacer,
+    encCps p.indent]
+
+def decPrefs (ws : List String) : Option SPrefs :=
+  match ws with
+  | [a, b, c, d, e, f, g, h, ls, pns, sp, lis, ps, ind] =>
+    match decBool a, decBool b, decBool c, decBool d, decBool e, decBool f, decBool g, decBool h with
+    | some a, some b, some c, some d, some e, some f, some g, some h =>
+      match decCps ls, decCps pns, decCps sp, decCps lis, decCps ps, decCps ind with
+      | some ls, some pns, some sp, some lis, some ps, some ind =>
+        some { keepAllProperties := a, keepComments := b, omitLastSemicolon := c, defaultPropertyName := d,
+               defaultPropertyPriority := e, validOnly := f, normalizedVarNames := g, indentClosingBrace := h,
+               lineSeparator := ls, propertyNameSpacer := pns, spacer := sp, listItemSpacer := lis,
+               paranthesisSpacer := ps, indent := ind }
+      | _, _, _, _, _, _ => none
+    | _, _, _, _, _, _, _, _ => none
+  | _ => none
 
 def decSrc (w : String) : Option SrcItem :=
   match w.splitOn ":" with
@@ -215,6 +263,12 @@ def step (st : St) (line : String) : St × String :=
   | ["css", n] => match decCps n with
     | some n => (st, encCps (toCSS n))
     | none => bad st
+  | ["rq", n] => match decCps n with
+    | some n => (st, encCps (requote n))
+    | none => bad st
+  | ["gvq", n] => match decCps n with
+    | some n => (st, encCps (getPropertyValue st.d.seq (requote n) true))
+    | none => bad st
   | ["norm", n] => match decCps n with
     | some n => (st, encCps (normalize n))
     | none => bad st
@@ -238,6 +292,49 @@ def step (st : St) (line : String) : St × String :=
     | some n => (st, if vContains st.v n then "1" else "0")
     | none => bad st
   | ["vobs"] => (st, showVObs st.v)
+  | ["aget", dom] => match decCps dom with
+    | some dom => (st, match attrGet st.d.seq dom with | some v => encCps v | none => "err crash:AttributeError")
+    | none => bad st
+  | ["aset", dom, v] => match decCps dom, decOpt v with
+    | some dom, some v =>
+      match attrCss dom with
+      | none => (st, "err crash:AttributeError")
+      | some _ => runD st (fun env => (attrSet env st.d dom v).getD ⟨st.d, .error .pyCrash⟩) showRet
+    | _, _ => bad st
+  | ["adel", dom] => match decCps dom with
+    | some dom =>
+      match attrCss dom with
+      | none => (st, "err crash:AttributeError")
+      | some _ => runD st (fun _ => (attrDel st.d dom).getD ⟨st.d, .error .pyCrash⟩) (fun s => "ok s:" ++ encCps s)
+    | none => bad st
+  | ["pdef"] => (st, showPrefs SPrefs.default)
+  | ["pmin"] => (st, showPrefs minifiedPrefs)
+  | "prefs" :: ws => match decPrefs ws with
+    | some p => ({ st with prefs := p, vts := [], valids := [] }, "ok")
+    | none => bad st
+  | ["vt", c, t] => match decCps c, decCps t with
+    | some c, some t => ({ st with vts := (c, t) :: st.vts }, "ok")
+    | _, _ => bad st
+  | ["pvalid", n, c, pr, b] => match decCps n, decCps c, decCps pr, decBool b with
+    | some n, some c, some pr, some b => ({ st with valids := ((n, c, pr), b) :: st.valids }, "ok")
+    | _, _, _, _ => bad st
+  | ["ptext"] => (st, rtext st (fun re => cssTextP st.prefs re st.d.seq))
+  | ["psep", sep] => match decCps sep with
+    | some sep => (st, rtext st (fun re => cssTextSep st.prefs re sep true st.d.seq))
+    | none => bad st
+  | ["psrc"] =>
+    let f := fun (re : REnv) => (srcOf st.prefs re (declSeqP st.prefs st.d.seq)).map (fun it => match it with
+      | .decl n v p => "D:" ++ encCps n ++ ":" ++ encCps v ++ ":" ++ encCps p
+      | .comment t => "M:" ++ encCps t
+      | .semicolon => "S")
+    let a := f (st.renv false)
+    let b := f (st.renv true)
+    (st, if a == b then showList a else "missing")
+  | ["vpsrc"] =>
+    (st, showList ((vWritten st.prefs st.v.seq).map (fun x => match x with
+      | .var nm val => "var/" ++ encCps nm ++ "/" ++ encCps ((st.renv false).vtext val)
+      | .other t => "other/" ++ encCps t)))
+  | ["vptext"] => (st, rtext st (fun re => vCssTextP st.prefs re 1 st.v))
   | _ => bad st
 
 def main : IO Unit := serveSt ({} : St) step
